@@ -817,7 +817,9 @@ class _FPCore2FPy:
                 ctx_val: None | Context | FPCoreContext = FPCoreContext(**props).to_context()
             except NoSuchContextError:
                 ctx_val = FPCoreContext(**props)
-            del props['precision']
+            # the metadata drops `precision`; `ctx.props` keeps it (a copy, not `del`:
+            # the dictionary is shared), so inner partial annotations still inherit it
+            props = { k: v for k, v in props.items() if k != 'precision' }
         else:
             ctx_val = None
 
